@@ -21,6 +21,7 @@ var families = map[string]func(dir string, seed int64, tier string){
 	"heap": famHeap,
 	"pipeline": famPipeline,
 	"conc": famConc,
+	"golden": famGolden,
 }
 
 func main() {
@@ -36,6 +37,10 @@ func main() {
 	fs.Parse(os.Args[2:])
 	if cmd == "consts" {
 		dumpConsts(*out)
+		return
+	}
+	if cmd == "golden-freeze" {
+		goldenFreeze()
 		return
 	}
 	f, ok := families[cmd]
